@@ -1,0 +1,28 @@
+//go:build verif
+
+package namedpipe
+
+// Contracts for the verification tooling (build tag "verif"). Comment-only: never compiled into the daemon.
+// cb is the ghost trace of callback invocations (cb[i].line, cb[i].ctx, cb[i].fn, cb[i].ret);
+// rdstream(r, k) is the k-th delimiter-terminated record of the byte stream behind reader r,
+// rdrec(r) the number of records ReadString has returned so far, rdlasterr(r) its last error.
+
+//@ functype Callback
+//@   modifies out, ctr, chans, heap
+//@   allocates
+
+//@ func (*NamedPipeIngester).Ingest
+//@   requires n != nil && n.Logger != nil && n.Health != nil && HealthOK(n.Health) && ctx != nil && callback != nil
+//@   ensures[nonnil] result != nil
+//@   ensures[once] rdcount == old(rdcount) || rdcount == old(rdcount) + 1
+//@   ensures[noread] rdcount == old(rdcount) ==> len(cb) == old(len(cb))
+//@   ensures[count] rdcount == old(rdcount) + 1 ==> len(cb) - old(len(cb)) == rdrec(lastreader)
+//@   ensures[records] rdcount == old(rdcount) + 1 ==> (forall i int :: old(len(cb)) <= i && i < len(cb) ==>
+//@   |   cb[i].line == rdstream(lastreader, i - old(len(cb))) && cb[i].ctx == ctx && cb[i].fn == callback)
+//@   ensures[stop] forall i int :: old(len(cb)) <= i && i < len(cb) - 1 ==> cb[i].ret == nil
+//@   ensures[cberr] len(cb) > old(len(cb)) && cb[len(cb) - 1].ret != nil ==> result == cb[len(cb) - 1].ret
+//@   ensures[rderr] rdcount == old(rdcount) + 1 && (len(cb) == old(len(cb)) || cb[len(cb) - 1].ret == nil) ==> result == rdlasterr(lastreader)
+//@   loop Ingest#1 invariant[reader] r != nil && r == lastreader && rdcount == old(rdcount) + 1 && file != nil
+//@   loop Ingest#1 invariant[count] len(cb) - old(len(cb)) == rdrec(r) && len(cb) >= old(len(cb))
+//@   loop Ingest#1 invariant[records] forall i int :: old(len(cb)) <= i && i < len(cb) ==>
+//@   |   cb[i].line == rdstream(r, i - old(len(cb))) && cb[i].ctx == ctx && cb[i].fn == callback && cb[i].ret == nil
